@@ -22,7 +22,7 @@ Record Inv4 (s : state) : Prop := {
       active_at s (sresp sb) = true -> In e (sres sb) -> hw_ok (caches s) e
 }.
 
-Lemma Inv4_init : Inv4 init.
+Lemma Inv4_init b : Inv4 (init_of b).
 Proof.
   constructor; cbn; intros;
     match goal with H : nth_error [] ?x = Some _ |- _ => destruct x; discriminate end.
@@ -287,7 +287,7 @@ Proof.
     intros q b0 Hq. upd_cases Hq; [discriminate|auto].
   - (* recv_batch *)
     pose proof (t_chan s HD _ _ _ Hp H0) as [Hb1 Hb2].
-    assert (Hpa : poll_active pl = true) by (unfold poll_active; destruct H as [-> | ->]; reflexivity).
+    assert (Hpa : poll_active pl = true) by (unfold poll_active; destruct H as [-> |[-> | ->]]; reflexivity).
     assert (Hblive : forall e, In e b -> hw_ok (caches s) e) by (intros; eapply o_chan; eauto).
     destruct (deliver_spec (pid pl) b (caches s) (delivered s) (o_hw s HI) Hb1 Hb2 Hblive) as [Hhw' Hsame].
     (* no other live entry is for a cache of this batch *)
@@ -324,6 +324,8 @@ Proof.
   - eapply (Hgen LWait (chans s) (works s)); eauto; try reflexivity; try discriminate.
   - eapply (Hgen LWait (upd r VNil (chans s)) (works s)); eauto; try reflexivity; try discriminate.
     intros q b Hq. upd_cases Hq; [discriminate|auto].
+  - eapply (Hgen (LDone RTimeout) (chans s)); eauto; try reflexivity; try discriminate.
+  - eapply (Hgen LTimedOut (chans s) (works s)); eauto; try reflexivity; try discriminate.
   - eapply (Hgen (LDone RTimeout) (chans s)); eauto; try reflexivity; try discriminate.
 Qed.
 
